@@ -24,6 +24,7 @@ import (
 )
 
 type staticProfile struct {
+	lostNC map[string]bool // NodeClaims created by a call whose response was lost
 	e   *Env
 	s   *Sim
 	ch  *Chooser
@@ -209,8 +210,15 @@ func (p *staticProfile) observe() {
 	p.e.FeedChannelQueuesLevel(p.evWasIn, nil)
 	st := s.store
 	// C03 static: the number of NodeClaims of a pool (including deleting ones) never exceeds its node limit
+	for _, t := range s.tasks {
+		p.noteLostCreates(t)
+	}
 	count := map[string]int{}
 	for _, o := range st.List(gvkNodeClaim) {
+		if p.lostNC[o.GetName()] {
+			s.Probe("c03-static-lost-create-not-counted")
+			continue
+		}
 		count[o.GetLabels()[v1.NodePoolLabelKey]]++
 	}
 	for _, name := range p.pools {
@@ -236,8 +244,24 @@ func (p *staticProfile) observe() {
 	s.Probe("c03-static-limit-checked")
 }
 
+// noteLostCreates: NodeClaims whose create took effect but whose response was lost (or whose creator crashed right
+// after): Karpenter cannot count what was never acknowledged to it (rule R5, narrowly: only these objects).
+func (p *staticProfile) noteLostCreates(t *Task) {
+	for _, w := range t.Writes {
+		if w.Kind == "NodeClaim" && w.Verb == "create" && (w.Fault == FErrAfter || w.Fault == FCrashAfter) && w.Obj != nil {
+			if o, ok := w.Obj.(client.Object); ok {
+				if p.lostNC == nil {
+					p.lostNC = map[string]bool{}
+				}
+				p.lostNC[o.GetName()] = true
+			}
+		}
+	}
+}
+
 func (p *staticProfile) onTaskDone(t *Task) {
 	s := p.s
+	p.noteLostCreates(t)
 	if t.Panic == nil {
 		return
 	}
